@@ -24,10 +24,19 @@ type c15Cell struct {
 	PMax    uint8
 	KeyLen  int
 	LateKey bool // keyring configured empty at creation, first key installed afterwards
+	Outer   bool `json:",omitempty"` // SkipInboundLabelCheck: an outer layer (the harness) strips inbound label headers
+	ShortWr int  `json:",omitempty"` // > 0: every stream Write accepts at most this many bytes and reports no error
 }
 
 func (c c15Cell) String() string {
-	return fmt.Sprintf("label=%q comp=%v proto=%d peerpmax=%d key=%d latekey=%v", c.Label, c.Comp, c.Proto, c.PMax, c.KeyLen, c.LateKey)
+	x := ""
+	if c.Outer {
+		x += " skip-inbound-label-check"
+	}
+	if c.ShortWr > 0 {
+		x += fmt.Sprintf(" short-writes<=%dB", c.ShortWr)
+	}
+	return fmt.Sprintf("label=%q comp=%v proto=%d peerpmax=%d key=%d latekey=%v%s", c.Label, c.Comp, c.Proto, c.PMax, c.KeyLen, c.LateKey, x)
 }
 
 type c15Mon struct {
@@ -116,7 +125,9 @@ func runC15Cell(t *testing.T, cell c15Cell, rep *Report) {
 			}
 			c.Keyring = kr
 			rings[name] = kr
+			c.SkipInboundLabelCheck = cell.Outer
 		})
+		p.OuterLayer = cell.Outer
 		s, r := p.s, p.r
 		// canary-bearing names need a custom pair: rename is impossible, so canaries ride in meta/payload/state
 		if cell.LateKey {
@@ -234,7 +245,9 @@ func runC15Cell(t *testing.T, cell c15Cell, rep *Report) {
 							v = 0
 						}
 						out, _ := ml.VEncryptPayload(v, mon.prim[r.Name], ack, []byte(cell.Label))
-						out, _ = ml.AddLabelHeaderToPacket(out, cell.Label)
+						if !cell.Outer {
+							out, _ = ml.AddLabelHeaderToPacket(out, cell.Label)
+						}
 						r.T.Deliver(out, simAddr("10.0.0.98:7946"))
 					}
 				}
@@ -263,7 +276,7 @@ func runC15Cell(t *testing.T, cell c15Cell, rep *Report) {
 			c2.onWrite = func(bs []byte) { reply = append(reply, bs...) }
 			r.T.Accept(c2)
 			junk := append([]byte(nil), []byte{ml.VPushPullMsg, 0x83, 0xa5}...)
-			if cell.Label != "" {
+			if cell.Label != "" && !cell.Outer {
 				junk = append(append([]byte{ml.VHasLabelMsg, byte(len(cell.Label))}, []byte(cell.Label)...), junk...)
 			}
 			_, _ = c1.Write(junk)
@@ -330,16 +343,26 @@ func TestC15(t *testing.T) {
 		for _, comp := range []bool{false, true} {
 			for _, proto := range []uint8{1, 2, 5} {
 				for _, pm := range []uint8{4, 5} {
-					cells = append(cells, c15Cell{lb, comp, proto, pm, 16, false})
+					cells = append(cells, c15Cell{lb, comp, proto, pm, 16, false, false, 0})
 				}
 			}
 		}
-		cells = append(cells, c15Cell{lb, true, 2, 5, 32, true})
+		cells = append(cells, c15Cell{lb, true, 2, 5, 32, true, false, 0})
+	}
+	// a labelled node behind an outer layer that strips inbound label headers (SkipInboundLabelCheck)
+	for _, proto := range []uint8{1, 5} {
+		cells = append(cells, c15Cell{Label: "lbl55", Comp: proto == 5, Proto: proto, PMax: 5, KeyLen: 16, Outer: true})
+	}
+	// streams whose Write takes only part of the buffer without reporting an error
+	for _, lb := range []string{"", "lbl55"} {
+		for _, sw := range []int{16, 40} {
+			cells = append(cells, c15Cell{Label: lb, Comp: sw == 40, Proto: 5, PMax: 5, KeyLen: 16, ShortWr: sw})
+		}
 	}
 	if thorough() {
 		for _, kl := range []int{24, 32} {
 			for _, proto := range []uint8{1, 3, 4} {
-				cells = append(cells, c15Cell{strings.Repeat("w", 255), true, proto, 5, kl, false}, c15Cell{"x", false, proto, 4, kl, true})
+				cells = append(cells, c15Cell{strings.Repeat("w", 255), true, proto, 5, kl, false, false, 0}, c15Cell{"x", false, proto, 4, kl, true, false, 0})
 			}
 		}
 	}
@@ -354,6 +377,11 @@ func TestC15(t *testing.T) {
 			continue
 		}
 		journal("C15 %v", c)
+		if c.ShortWr > 0 {
+			runC15Short(t, c, rep)
+			rep.Distinct += 3
+			continue
+		}
 		runC15Cell(t, c, rep)
 		rep.Distinct += 20
 	}
@@ -362,4 +390,66 @@ func TestC15(t *testing.T) {
 	}
 	rep.Sample(map[string]any{"cell": cells[0].String(), "history": "UpdateNode, Join, push/pull, gossip, probe, indirect probe, relayed ack, user messages, TCP ping, error reply, UseKey, Leave"})
 	_ = net.IPv4zero
+}
+
+// runC15Short: every stream send site against conns whose Write takes only part of the buffer and
+// reports no error. Whatever the node does about it (the code gives up with an error), nothing but
+// label header and ciphertext may reach the stream.
+func runC15Short(t *testing.T, cell c15Cell, rep *Report) {
+	k1 := bytes.Repeat([]byte{0xc1}, cell.KeyLen)
+	res := inBubble(t, func(b *bubble) {
+		installDetRand()
+		l := lat{Enc: "off", Comp: cell.Comp, Label: cell.Label, PeerPMax: cell.PMax}
+		p := newPairOpt(b, l, true, func(name string, c *ml.Config) {
+			c.ProtocolVersion = cell.Proto
+			kr, _ := ml.NewKeyring(nil, k1)
+			c.Keyring = kr
+		})
+		s, r := p.s, p.r
+		s.D.SetMeta([]byte("CANARY-META-S"))
+		r.D.SetMeta([]byte("CANARY-META-R"))
+		s.D.Local, r.D.Local = []byte("CANARY-STATE-S-"+strings.Repeat("z", 60)), []byte("CANARY-STATE-R-"+strings.Repeat("z", 60))
+		for _, n := range []*node{s, r} {
+			done := make(chan error, 1)
+			go func() { done <- n.M.UpdateNode(time.Second) }()
+			settle()
+			<-done
+		}
+		simShortWrite = cell.ShortWr
+		defer func() { simShortWrite = 0 }()
+		judge := func(step string) {
+			for i := range p.StreamsS2R {
+				for _, bs := range [][]byte{p.StreamsS2R[i], p.StreamsR2S[i]} {
+					rep.Evaluations++
+					if hasCanary(bs) {
+						rep.Violate("cleartext:canary:"+step, fmt.Sprintf("%v step=%s: after a short write the node put plaintext on the stream (%d bytes written in all)", cell, step, len(bs)), cell)
+						return
+					}
+					rest := bs
+					if cell.Label != "" && len(rest) >= 2+len(cell.Label) && rest[0] == ml.VHasLabelMsg {
+						rest = rest[2+len(cell.Label):]
+					}
+					if len(rest) > 0 && rest[0] != ml.VEncryptMsg {
+						rep.Violate("cleartext:not-ciphertext:"+step, fmt.Sprintf("%v step=%s: stream bytes start with type %d", cell, step, rest[0]), cell)
+						return
+					}
+				}
+			}
+		}
+		_ = s.M.SendReliable(p.nodeOf(r), []byte("CANARY-RELIABLE-"+strings.Repeat("q", 80)))
+		settle()
+		judge("user reliable")
+		_ = s.M.VPushPullNode(string(r.Addr), r.Name, false)
+		settle()
+		judge("push/pull")
+		_, _ = s.M.VSendPingAndWaitForAck(string(r.Addr), r.Name, 4242, time.Now().Add(time.Second))
+		settle()
+		judge("tcp ping")
+		_, _ = r.M.Join([]string{string(s.Addr)})
+		settle()
+		judge("join")
+	})
+	if res.Panic != nil {
+		rep.Violate("panic", fmt.Sprintf("%v: %v", cell, res.Panic), cell)
+	}
 }
